@@ -9,7 +9,7 @@ _ver = [0]
 
 
 async def run_config(ctx, tree, W, kind, seqs, rnd, results):
-    conf = 'memory_cache_shared on\ncollapsed_forwarding on\nmaximum_object_size 4 MB\n'
+    conf = 'memory_cache_shared on\ncollapsed_forwarding on\nmaximum_object_size 4 MB\nacl purgemethod method PURGE\n'
     if kind == 'rock':
         conf += 'cache_mem 256 KB\nmaximum_object_size_in_memory 8 KB\n'
     else:
@@ -76,7 +76,7 @@ async def run_config(ctx, tree, W, kind, seqs, rnd, results):
         if method == 'GET':
             kr['ev'].append({'e': 'Req', 'id': rid})
         r = await peers.simple_get(peers.Rec(), sq.ports[w - 1], url, headers=list(extra), vid=rid, method=method, body=(b'x' if method == 'POST' else None), timeout=15.0)
-        if method == 'POST':
+        if method in ('POST', 'PURGE'):
             if r.status == 200:
                 kr['ev'].append({'e': 'Inval'})
             return
@@ -116,6 +116,38 @@ async def run_config(ctx, tree, W, kind, seqs, rnd, results):
                 await get(kr, w, [('Cache-Control', 'no-cache')])
             elif op == 'pair':
                 await asyncio.gather(get(kr, w), get(kr, other))
+            elif op == 'purgeslow':
+                # a client of the other worker takes the header of the cached entry and stops reading (4 KB receive buffer)
+                import socket
+                sk = socket.socket(socket.AF_INET, socket.SOCK_STREAM)
+                sk.setsockopt(socket.SOL_SOCKET, socket.SO_RCVBUF, 4096)
+                sk.setblocking(False)
+                loop = asyncio.get_event_loop()
+                kr['rid'] += 1
+                rid = '%s.%d' % (kr['key'], kr['rid'])
+                url = 'http://127.0.0.1:%d/%s/%s' % (origin.port, kind, kr['key'])
+                kr['ev'].append({'e': 'Req', 'id': rid})
+                hv = -1
+                try:
+                    await loop.sock_connect(sk, ('127.0.0.1', sq.ports[other - 1]))
+                    await loop.sock_sendall(sk, ('GET %s HTTP/1.1\r\nHost: 127.0.0.1:%d\r\nX-Verif-Id: %s\r\n\r\n' % (url, origin.port, rid)).encode())
+                    got = b''
+                    while b'\r\n\r\n' not in got and len(got) < 16384:
+                        chunk = await asyncio.wait_for(loop.sock_recv(sk, 1024), 10)
+                        if not chunk:
+                            break
+                        got += chunk
+                    for line in got.split(b'\r\n'):
+                        if line.lower().startswith(b'x-verif-version:'):
+                            hv = int(line.split(b':', 1)[1])
+                except (OSError, asyncio.TimeoutError, ValueError):
+                    pass
+                kr['ev'].append({'e': 'CResp', 'id': rid, 'status': 200 if hv >= 0 else 0, 'hv': hv, 'bv': -1, 'canary': hv, 'blen': 0, 'intact': True, 'complete': False, 'cs': 'slow', 'w': other})
+                await get(kr, w, method='PURGE')
+                await asyncio.sleep(0.02)
+                await get(kr, other)
+                await get(kr, w)
+                sk.close()
             elif op == 'post':
                 await get(kr, w, method='POST')
                 await asyncio.sleep(0.02)      # invalidation is propagated to other workers asynchronously: tiny grace
@@ -123,7 +155,8 @@ async def run_config(ctx, tree, W, kind, seqs, rnd, results):
     try:
         krs = []
         for i, ops in enumerate(seqs):
-            kr = {'key': 'k%d' % i, 'ops': ops, 'ev': [], 'rid': 0, 'size': random.Random(rnd.random()).choice(SIZES),
+            kr = {'key': 'k%d' % i, 'ops': ops, 'ev': [], 'rid': 0,
+                  'size': 3000001 if any(o == 'purgeslow' for o, _ in ops) else random.Random(rnd.random()).choice(SIZES),
                   'framing': random.Random(rnd.random()).choice(['length', 'length', 'chunked', 'chunked', 'close'])}
             keys[kr['key']] = kr
             krs.append(kr)
@@ -173,7 +206,7 @@ def run(ctx):
     ctx.cov['invalidations'] = sum(1 for _, _, kr in results for e in kr['ev'] if e['e'] == 'Inval')
     for k, W, kr in results[:2]:
         ctx.sample({'store': k, 'workers': W, 'ops': kr['ops'], 'size': kr['size'], 'events': kr['ev'][:8]})
-    ctx.cov['rule'] = ('operation sequences = all words of length 4 over {get, getslow(+reader on another worker), slowabort(the same, the origin drops the connection mid-body), reload, reval(304 with a larger header block, then a get through the other worker), post(invalidate), pair} x worker explored by TLC on SmpScen.tla; '
+    ctx.cov['rule'] = ('operation sequences = all words of length 4 over {get, getslow(+reader on another worker), slowabort(the same, the origin drops the connection mid-body), reload, purgeslow(PURGE while a slow client of the other worker is receiving the entry), reval(304 with a larger header block, then a get through the other worker), post(invalidate), pair} x worker explored by TLC on SmpScen.tla; '
                        'sampled sequences realised on their own URLs (8 in flight) against SMP squid with 2 (thorough: 3) workers, shared memory cache and rock, origin framing Content-Length / chunked / close-delimited, sizes across shared-page and '
                        'slot boundaries; one history per URL validated by TLC against SmpCache.tla.')
     ctx.assumptions += ['per-worker listening ports pin clients to workers', 'a 20 ms grace after an invalidating response before the next request (cross-worker purge notification is asynchronous)']
